@@ -24,7 +24,7 @@ def _scale(shape):
     if shape == "daily_intframe_utc":
         return 1, pd.Timestamp("2019-06-01T00:00:00Z"), "UTC", True
     if shape == "hourly_series_utc_limits_chicago":
-        return 1, pd.Timestamp("2019-07-01T00:00:00Z"), "UTC", False
+        return 1.0 / 6, pd.Timestamp("2019-07-01T00:00:00Z"), "UTC", False        # one abstract unit = 2 hours: less than the distance between the two zones
     if shape == "hourly_frame_chicago":
         return 1, pd.Timestamp("2019-03-08T19:00:00Z"), "America/Chicago", True      # the March clock change (10 March 08:00Z) falls 1.5 days after the base: inside even the quick timeline
     if shape == "billing_frame_utc":
